@@ -5,6 +5,7 @@
 package handler
 
 import (
+	"bytes"
 	"encoding/binary"
 	"fmt"
 	"net"
@@ -295,8 +296,64 @@ func Layer(r *ev.Run) {
 		r.Distinct(fmt.Sprintf("database|%c|%d", input0(input), len(input)%7))
 	}
 	r.Count("handler_database_inputs", int64(n/2))
+	// (c) pipelining: valid extended-protocol statements on configured columns sent back to back without waiting for the
+	// answers (libpq pipeline mode, asynchronous drivers): the proxy's client-side goroutine analyses statement n+1 while its
+	// database-side goroutine handles the answers to statement n. Shared per-session state touched by both must survive that;
+	// a runtime fatal error ("concurrent map writes") takes the whole process down, a recovered panic is reported by the hook.
+	rounds := r.Pick(6, 60)
+	for round := 0; round < rounds; round++ {
+		r.Case()
+		c, _, err := proxyrig.DialPG(a.Port)
+		if err != nil {
+			r.Violation("handler: listener gone", nil)
+			return
+		}
+		const perRound = 250
+		var batch []byte
+		for i := 0; i < perRound; i++ {
+			id := 100000 + round*perRound + i
+			var msgs []pgproto3.FrontendMessage
+			switch i % 3 {
+			case 0:
+				msgs = []pgproto3.FrontendMessage{
+					&pgproto3.Parse{Query: "insert into t (id, note, enc, srch) values ($1, $2, $3, $4)"},
+					&pgproto3.Describe{ObjectType: 'S'},
+					&pgproto3.Bind{Parameters: [][]byte{[]byte(fmt.Sprint(id)), []byte("n"), []byte("pipelined secret"), []byte("pipelined find")}},
+					&pgproto3.Execute{}, &pgproto3.Sync{}}
+			case 1:
+				msgs = []pgproto3.FrontendMessage{
+					&pgproto3.Parse{Query: "select id, enc, srch from t where srch = $1 and id = $2"},
+					&pgproto3.Describe{ObjectType: 'S'},
+					&pgproto3.Bind{Parameters: [][]byte{[]byte("pipelined find"), []byte(fmt.Sprint(id - 1))}},
+					&pgproto3.Execute{}, &pgproto3.Sync{}}
+			default:
+				msgs = []pgproto3.FrontendMessage{
+					&pgproto3.Parse{Query: "update t set enc = $1, tok = $2 where id = $3"},
+					&pgproto3.Bind{Parameters: [][]byte{[]byte("pipelined secret 2"), []byte("pipelined token"), []byte(fmt.Sprint(id - 2))}},
+					&pgproto3.Execute{}, &pgproto3.Sync{}}
+			}
+			for _, m := range msgs {
+				b, _ := m.Encode(nil)
+				batch = append(batch, b...)
+			}
+		}
+		c.SendRaw(batch)
+		mark := len(c.RawIn())
+		c.DrainRaw(400 * time.Millisecond)
+		raw := c.RawIn()[mark:]
+		c.Abort()
+		ready := bytes.Count(raw, []byte{'Z', 0, 0, 0, 5})
+		r.Count("handler_pipelined_statements_sent", perRound)
+		r.Count("handler_pipelined_ready_for_query_seen", int64(ready))
+		report("pipelined client", batch[:200], map[string]interface{}{"direction": "client->acra (pipelined valid statements)", "round": round})
+		if !healthy("a pipelined batch of valid statements", map[string]interface{}{"round": round}) {
+			return
+		}
+		r.Distinct(fmt.Sprintf("pipelined|round%d", round%4))
+	}
 	healthy("the whole hostile run", nil)
 	r.RequireAtLeast("handler_client_inputs", 100)
+	r.RequireAtLeast("handler_pipelined_ready_for_query_seen", 200)
 }
 
 func input0(b []byte) byte {
